@@ -19,13 +19,23 @@ from . import common
 from .common import Labels, fs, exc_name, canon_terms, ANC
 
 CEXT = "plain"
-RULE = ("edit histories on a fresh model of each of the ten types: all histories of length <=2 over ~40 concrete "
+RULE = ("edit histories on a fresh model of each of the ten types: all histories of length <=2 over ~45 in-place "
         "edits (item/augmented assignment incl. zero values and fresh labels, keys with repeated labels, "
         "cancellations, +=,-=,*=,/=,**= with dict/scalar, update, clear, refresh, copy, six comparison "
-        "constraints on PCBO/PCSO) plus random histories of length <=12; realised with int/str/tuple/mixed "
-        "labels; non-trivial = at some step a cached quantity is stale (variables/degree/count differ from the "
-        "exact ones) or the history contains a dict product, a copy/refresh or a constraint after another edit")
-ASSUMPTIONS = ["dict/mapping order is not compared once a model holds more than ten constraint ancillas ('__a10' < '__a9' as strings)",
+        "constraints on PCBO/PCSO); every copy-like operation after which the history goes on with the result "
+        "(round(H[,n]), H.subs, constructors T(H) of the own and of other classes, H+c, c+H, H-c, c-H, H*c, c*H, -H, +H, "
+        "H/c, H**e, H+dict, H*dict, set_mapping with a permutation, update(model of the own / another class)) paired "
+        "in both orders with the in-place edits and with each other; targeted histories (cancel the newest label "
+        "before a reducing conversion; constraint ; copy-like ; constraint); random histories of length <=12 over "
+        "everything; realised with int/str/tuple/mixed labels; non-trivial = at some step a cached quantity is "
+        "stale (variables/degree/count differ from the exact ones) or the history contains a dict product, a "
+        "copy-like operation, refresh or a constraint after another edit")
+ASSUMPTIONS = ["a constructor of another class (PUBO(pcbo), PCSO(pcbo), PCBO(PUBO(pcbo))) and update() with an object of "
+               "another class make/use a different model: ancilla-form labels taken over that way count as user labels "
+               "(PUBO has no counter; PCBO adopts only a PCBO's) — reported as an observation, not checked as a violation",
+               "set_mapping is exercised with a bijection of exactly the current variables onto 0..n-1 (any other "
+               "argument breaks the mapping clause by the caller's own input; set_mapping is not among the property's edits)",
+               "dict/mapping order is not compared once a model holds more than ten constraint ancillas ('__a10' < '__a9' as strings)",
                "user keys never contain labels of the reserved ancilla form '__a<k>'",
                "label sets of reduced forms are compared as: model labels exactly, ancilla labels a contiguous "
                "range from the predicted start (the number of ancillas is C01's subject)"]
@@ -56,6 +66,26 @@ def labels_for(kind, style):
         # tuples / lower-case strings would sort after '__a<k>' (non-monotone, DESIGN §3.1)
         return Labels("int") if style in ("int", "mixed") else UpperLabels()
     return Labels(style)
+
+
+def kinds_in(case):
+    """every model class a history passes through: start, cast targets, classes of update() arguments"""
+    out = {case["kind"]}
+    for e in case["hist"]:
+        if e["t"] == "cast":
+            out.add(e["kind"])
+        elif e["t"] == "updateM":
+            out |= kinds_in(e["arg"])
+    return out
+
+
+def labels_for_case(case):
+    ks = kinds_in(case)
+    if ks & MATRIX:
+        return Labels("int")
+    if ks & PC:
+        return labels_for("PCBO", case["style"])
+    return Labels(case["style"])
 
 
 def cls_of(name):
@@ -96,15 +126,60 @@ CONS = [
     C("gt", [[[0, 1], "2"], [[2], "-1"]]),
     C("le", [[[0], "1"], [[3], "1"]], lam="0"),
 ]
+def B(a, **kw): return dict({"t": "bin", "a": a}, **kw)
+def UM(kind, hist): return {"t": "updateM", "arg": {"kind": kind, "hist": hist}}
+
+
+# copy-like operations: the history goes on with the result
+COPYLIKE = [
+    {"t": "round", "nd": None}, {"t": "round", "nd": -1}, {"t": "round", "nd": 0}, {"t": "subs"},
+    B({"t": "addC", "c": "0"}), B({"t": "addC", "c": "3"}, refl=True), B({"t": "subC", "c": "0"}),
+    B({"t": "mulC", "c": "1"}), B({"t": "mulC", "c": "2"}, refl=True), B({"t": "mulC", "c": "0"}),
+    B({"t": "divC", "c": "1"}), B({"t": "pow", "e": 1}), B({"t": "pow", "e": 2}),
+    B({"t": "addD", "q": [[[4, 4], "0"], [[1], "1"]]}), B({"t": "mulD", "q": [[[0], "1"], [[], "1"]]}),
+    {"t": "neg"}, {"t": "pos"}, {"t": "rsubC", "c": "1"}, {"t": "remap"},
+]
+
+
+def cast_targets(kind):
+    """`T(H)`: the own class (a copy), the other classes of the family, and the other basis"""
+    if kind in MATRIX:
+        return [kind, "PUBOMatrix" if kind not in SPIN else "PUSOMatrix", "PUSOMatrix" if kind not in SPIN else "PUBOMatrix",
+                "PUBO" if kind not in SPIN else "PUSO"]
+    if kind in SPIN:
+        return [kind, "PUSO", "PCSO", "QUSO", "PCBO"]
+    return [kind, "PUBO", "PCBO", "QUBO", "PCSO"]
+
+
+def update_args(kind):
+    """arguments of `H.update(G)`: a model of the own class (with constraints for PCBO/PCSO), one of another class"""
+    own = [CONS[0], S([3], "2")] if kind in PC else [S([1, 2], "1"), S([3], "0"), S([0], "-1")]
+    other = "PUSO" if kind in SPIN else "PUBO"
+    if kind in MATRIX:
+        other = kind
+    return [UM(kind, own), UM(other if other != kind else kind, [S([0, 1], "3"), S([4], "1"), S([4], "0")])]
+
+
+def copylike(kind):
+    out = list(COPYLIKE) + [{"t": "cast", "kind": k} for k in dict.fromkeys(cast_targets(kind))] + update_args(kind)
+    if kind in PC:
+        out.append(UM(kind, [CONS[2], CONS[0]]))
+    return out
+
+
 SMALL = [BASE[i] for i in (0, 1, 3, 4, 8, 11, 12, 16, 17, 21, 22, 23, 26, 29, 33, 34, 35, 36)]
 
 
-def alphabet(kind, small=False):
+def alphabet(kind, small=False, new=True):
     a = list(SMALL if small else BASE)
     if kind in PC:
         a += CONS[:3] if small else CONS
     else:
         a += CONS[:1] if not small else []      # AttributeError on the unconstrained types
+    if new:
+        cl = copylike(kind)
+        # small: round(), H * 1, update(model of the own class)
+        a += [cl[0], cl[7], cl[len(COPYLIKE) + len(dict.fromkeys(cast_targets(kind)))]] if small else cl
     return a
 
 
@@ -139,9 +214,32 @@ def rnd_edit(rng, kind, nlab):
     deg2 = kind in ("QUBO", "QUSO", "QUBOMatrix", "QUSOMatrix")
     ops = ["set"] * 5 + ["aug"] * 5 + ["iaddD", "isubD", "iaddC", "isubC", "imulD", "imulD", "imulC", "idivC",
                                        "ipow", "update", "update", "clear", "refresh", "copy"]
+    ops += ["round", "round", "subs", "cast", "cast", "bin", "bin", "bin", "neg", "pos", "rsubC", "remap", "updateM"]
     if kind in PC:
-        ops += ["cons"] * 5
+        ops += ["cons"] * 5 + ["round", "updateM", "bin"]
     t = rng.choice(ops)
+    if t == "round":
+        return {"t": t, "nd": rng.choice([None, None, 0, -1])}
+    if t == "cast":
+        return {"t": t, "kind": rng.choice(cast_targets(kind))}
+    if t == "bin":
+        a = rng.choice(["addC", "addC", "subC", "mulC", "mulC", "divC", "pow", "addD", "subD", "mulD"])
+        if a in ("addC", "subC", "mulC"):
+            return B({"t": a, "c": rng.choice(["0", "1"]) if rng.random() < 0.5 else rnd_coef(rng)}, refl=rng.random() < 0.4)
+        if a == "divC":
+            return B({"t": a, "c": rng.choice(["1", "2", "-2", "0"])})
+        if a == "pow":
+            return B({"t": a, "e": rng.choice([1, 1, 2, 0])})
+        return B({"t": a, "q": rnd_poly(rng, nlab, deg2, 0, 2)})
+    if t == "rsubC":
+        return {"t": t, "c": rnd_coef(rng)}
+    if t == "updateM":
+        gk = kind if rng.random() < 0.7 else rng.choice(cast_targets(kind))
+        sub = [rnd_edit(rng, gk, nlab) for _ in range(rng.randint(1, 3))]
+        sub = [x for x in sub if x["t"] in ("set", "aug", "iaddD", "iaddC", "cons", "update", "isubD")]
+        if gk in PC and rng.random() < 0.7:
+            sub.insert(rng.randrange(len(sub) + 1), rng.choice(CONS[:5]))
+        return UM(gk, sub)
     if t == "set":
         return S(rnd_key(rng, nlab, deg2), rnd_coef(rng))
     if t == "aug":
@@ -190,11 +288,22 @@ def rnd_history(rng, kind):
             if ncons >= (3 if nmul == 0 else 2) or nmul > 1:
                 continue
             ncons += 1
-        if e["t"] in ("ipow", "imulD"):
-            if e["t"] == "ipow" and e["e"] > 1 and ncons:
+        if e["t"] == "updateM":
+            k2 = sum(1 for x in e["arg"]["hist"] if x["t"] == "cons")
+            if ncons + k2 > 3 or nmul > 1:
+                continue
+            ncons += k2
+        if e["t"] == "cast":
+            kind = e["kind"]              # the edits that follow are drawn for the new class
+        if e["t"] == "bin" and e["a"]["t"] in ("pow", "mulD"):
+            e2 = {"t": "ipow", "e": e["a"].get("e", 1)} if e["a"]["t"] == "pow" else {"t": "imulD"}
+        else:
+            e2 = e
+        if e2["t"] in ("ipow", "imulD"):
+            if e2["t"] == "ipow" and e2["e"] > 1 and ncons:
                 continue      # squaring a model that holds slack ancillas explodes (exhaustive/targeted families
                               # cover constraint ; **= on the small constraints)
-            if e["t"] == "imulD" or e["e"] > 1:
+            if e2["t"] == "imulD" or e2["e"] > 1:
                 if nmul >= (1 if ncons else 2) or ncons > 2:
                     continue
                 nmul += 1
@@ -262,9 +371,60 @@ def apply_edit(H, e, L):
         if e["rel"] != "eq":
             kw["log_trick"] = e["lt"]
         f(real_dict(e["P"], L), **kw)
+    elif t == "round":
+        H = round(H) if e["nd"] is None else round(H, e["nd"])
+    elif t == "subs":
+        import sympy
+        H = H.subs({sympy.Symbol("not_in_H"): 1})
+    elif t == "cast":
+        H = cls_of(e["kind"])(H)
+    elif t == "bin":
+        a, refl = e["a"], e.get("refl", False)
+        if a["t"] == "addC":
+            H = (num(a["c"]) + H) if refl else (H + num(a["c"]))
+        elif a["t"] == "subC":
+            H = H - num(a["c"])
+        elif a["t"] == "mulC":
+            H = (num(a["c"]) * H) if refl else (H * num(a["c"]))
+        elif a["t"] == "divC":
+            H = H / num(a["c"])
+        elif a["t"] == "pow":
+            H = H ** a["e"]
+        elif a["t"] == "addD":
+            H = H + real_dict(a["q"], L)
+        elif a["t"] == "subD":
+            H = H - real_dict(a["q"], L)
+        elif a["t"] == "mulD":
+            H = H * real_dict(a["q"], L)
+        else:
+            raise common.Infra("bad arith " + a["t"])
+    elif t == "neg":
+        H = -H
+    elif t == "pos":
+        H = +H
+    elif t == "rsubC":
+        H = num(e["c"]) - H
+    elif t == "remap":
+        m = H.mapping
+        H.set_mapping({l: len(m) - 1 - i for l, i in m.items()})
+    elif t == "updateM":
+        H.update(build_arg(e["arg"], L))
     else:
         raise common.Infra("bad edit " + t)
     return H
+
+
+def build_arg(arg, L):
+    """the model `G` of `H.update(G)`: its own history on a fresh object (exceptions are swallowed, as in a history)"""
+    G = cls_of(arg["kind"])()
+    for x in arg["hist"]:
+        try:
+            G = apply_edit(G, x, L)
+        except common.Infra:
+            raise
+        except Exception:
+            pass
+    return G
 
 
 def snap(H, kind, L, err):
@@ -315,7 +475,7 @@ def is_anc(x):
     return isinstance(x, str) and x[:3] == "__a"
 
 
-def oracle_step(H, kind):
+def oracle_step(H, kind, foreign=frozenset()):
     """clauses O1..O4 on the live object; returns (clause, why) of the first failing clause or None"""
     tv, td = true_vars(H), true_degree(H)
     # O1: upper bounds
@@ -356,7 +516,7 @@ def oracle_step(H, kind):
             return "O3-refresh-max-index", "after refresh max_index=%r" % (G.max_index,)
     # O4: every constraint-ancilla name the model mentions was handed out by the current counter
     if kind in PC:
-        names = {x for x in tv | H.variables | set(H.mapping) if is_anc(x)}
+        names = {x for x in tv | H.variables | set(H.mapping) if is_anc(x) and x not in foreign}
         bad = sorted(x for x in names if int(x[3:]) >= H.num_ancillas)
         if bad:
             return "O4-ancilla-not-fresh", ("labels %r are in the model but num_ancillas=%d: the next constraint "
@@ -377,7 +537,18 @@ def poly_value(D, x, spin_target=None):
 _conv_cache = {}
 
 
-def oracle_conv(H, kind):
+def conv_outputs(H):
+    """the four enumerated / reduced forms of the live object (or the exception raised), computed once"""
+    outs = {}
+    for conv in ("to_pubo", "to_puso", "to_qubo", "to_quso"):
+        try:
+            outs[conv] = getattr(H, conv)()
+        except Exception as ex:
+            outs[conv] = ex
+    return outs
+
+
+def oracle_conv(H, kind, outs=None):
     """O5: enumerated and reduced forms use only mapping labels for model variables and strictly larger,
     previously unused labels for ancillas — and therefore represent the model's function: for every
     assignment of the model's variables, the minimum over the ancillas equals the model's value."""
@@ -390,11 +561,11 @@ def oracle_conv(H, kind):
     res = None
     top = max(r, default=-1)
     src_spin = kind in SPIN
+    outs = outs or conv_outputs(H)
     for conv in ("to_pubo", "to_puso", "to_qubo", "to_quso"):
-        try:
-            out = getattr(H, conv)()
-        except Exception as ex:
-            res = ("O5-" + conv + "-raises", "%s() raised %r" % (conv, ex)); break
+        out = outs[conv]
+        if isinstance(out, Exception):
+            res = ("O5-" + conv + "-raises", "%s() raised %r" % (conv, out)); break
         labs = {i for k in out for i in k}
         model_labs = {m[t] for t in tv}
         anc = sorted(labs - model_labs)
@@ -428,54 +599,63 @@ def oracle_conv(H, kind):
     return res
 
 
-def conv_labels(H):
-    out = {}
-    for conv in ("to_pubo", "to_puso", "to_qubo", "to_quso"):
-        try:
-            out[conv] = sorted({i for k in getattr(H, conv)() for i in k})
-        except Exception as ex:
-            out[conv] = "err:" + exc_name(ex)
-    return out
+def conv_labels(outs):
+    return {conv: ("err:" + exc_name(o)) if isinstance(o, Exception) else sorted({i for k in o for i in k})
+            for conv, o in outs.items()}
 
 
 def run_impl(case, with_oracle=True):
     """returns (steps, conv label sets, first oracle failure or None, stale flag)"""
-    kind, L = case["kind"], labels_for(case["kind"], case["style"])
+    kind, L = case["kind"], labels_for_case(case)
     H = cls_of(kind)()
     steps, fail, stale = [], None, False
-    allocated, drop = set(), None
+    allocated, drop, foreign = set(), None, set()
     for idx, e in enumerate(case["hist"]):
         err = None
         anc0 = H.num_ancillas if kind in PC else 0
+        kind0 = kind
         try:
             H = apply_edit(H, e, L)
         except common.Infra:
             raise
         except Exception as ex:
             err = exc_name(ex)
+        kind = type(H).__name__
         steps.append(snap(H, kind, L, err))
-        if kind in PC and drop is None and H.num_ancillas < anc0 and e["t"] != "clear":
+        if e["t"] == "updateM" and e["arg"]["kind"] != kind and kind in PC:
+            # update() with an object that is not an instance of the model's class is update() with a plain dict:
+            # ancilla-form labels in it are user-supplied labels (outside the property, see ASSUMPTIONS)
+            foreign = foreign | {x for x in true_vars(H) | H.variables if is_anc(x) and int(x[3:]) >= H.num_ancillas}
+        if kind != kind0:
+            # a constructor of another class made a model of that class: the ancilla-form labels it took over
+            # are ordinary labels of the new model (PUBO has no counter; PCBO(x) only adopts a PCBO's counter)
+            foreign = {x for x in true_vars(H) | H.variables if is_anc(x)}
+            allocated = set()
+        elif kind in PC and drop is None and H.num_ancillas < anc0 and e["t"] != "clear":
             drop = e["t"]
         if true_vars(H) != H.variables or true_degree(H) != H.degree:
             stale = True
         if with_oracle and fail is None:
-            bad = oracle_step(H, kind)
+            bad = oracle_step(H, kind, foreign)
             if bad is None and kind in PC:
                 # O4 (history form): names handed out by a constraint were never handed out before
                 if e["t"] == "clear":
-                    allocated = set()
-                elif e["t"] == "cons":
+                    allocated, foreign = set(), set()
+                elif e["t"] == "cons" and err is None:
                     new = set(range(anc0, H.num_ancillas))
                     if new & allocated or H.num_ancillas < anc0:
                         bad = ("O4-ancilla-reused", "constraint handed out __a%s again" % sorted(new & allocated))
                     allocated |= new
+                elif e["t"] == "updateM":
+                    allocated |= {int(x[3:]) for x in true_vars(H) | H.variables if is_anc(x) and x not in foreign}
             if bad:
-                fail = dict(step=idx, clause=bad[0], why=bad[1], edit=e, counter_dropped_by=drop)
+                fail = dict(step=idx, clause=bad[0], why=bad[1], edit=e, counter_dropped_by=drop, kind=kind)
     conv = None
     if kind not in MATRIX:
-        conv = conv_labels(H)
+        outs = conv_outputs(H)
+        conv = conv_labels(outs)
         if with_oracle and fail is None:
-            bad = oracle_conv(H, kind)
+            bad = oracle_conv(H, kind, outs)
             if bad:
                 fail = dict(step=len(case["hist"]), clause=bad[0], why=bad[1], edit=None,
                             stale_count=len(true_vars(H)) < H.num_binary_variables)
@@ -520,7 +700,7 @@ def signature(case, fail):
     if cl == "O2-mapping-has-non-variables" and e is not None:
         # D1: BO.__setitem__ gave an integer to a label of a raw key that was not stored (zero value, or the
         # label was squashed away)
-        L = labels_for(kind, case["style"])
+        L = labels_for_case(case)
         H = cls_of(kind)()
         for x in case["hist"][:fail["step"] + 1]:
             try:
@@ -534,6 +714,13 @@ def signature(case, fail):
         if e["t"] in ("set", "aug", "iaddD", "isubD", "imulD", "update", "ipow", "cons", "iaddC", "isubC") \
                 and extra and extra <= touched:
             return "C14:D1-setitem-registers-unstored-label"
+    kind = fail.get("kind", kind)
+    if cl in ("O4-ancilla-not-fresh", "O4-ancilla-reused") and fail.get("counter_dropped_by") == "round":
+        # before 0d891c4 round() kept constraints and __a* terms but restarted the counter
+        return "C14:round-ancilla-counter"
+    if cl == "O4-ancilla-not-fresh" and e is not None and e["t"] == "updateM" and e["arg"]["kind"] == kind:
+        # before 1495eb6 update(model) merged the argument's constraints and __a* terms, not its counter
+        return "C14:D10-update-model-leaves-ancilla-counter"
     if cl in ("O4-ancilla-not-fresh", "O4-ancilla-reused") and fail.get("counter_dropped_by") in ("imulD", "ipow"):
         return "C14:D2-imul-dict-resets-pcbo-ancilla-and-constraints"
     if cl.startswith("O5-") and kind in ("PUSO", "PCSO") and cl.split("-")[1] in ("to_qubo", "to_quso", "to_pubo", "to_puso") \
@@ -601,7 +788,8 @@ def process(ctx, cases, family):
     for c, m in zip(cases, models):
         steps, conv, fail, stale = run_impl(c)
         nontrivial = len(c["hist"]) >= 2 and (stale or any(
-            e["t"] in ("imulD", "ipow", "copy", "refresh", "cons") for e in c["hist"][1:]))
+            e["t"] in ("imulD", "ipow", "copy", "refresh", "cons", "round", "subs", "cast", "bin", "neg", "pos", "rsubC",
+                       "updateM", "remap") for e in c["hist"][1:]))
         ctx.case(c, nontrivial)
         ctx.count("%s:%s" % (family, c["kind"]))
         ctx.count("len:%d" % len(c["hist"]))
@@ -631,14 +819,23 @@ STYLES = ("int", "str", "tuple", "mixed")
 
 
 def exhaustive_cases(ctx):
+    """quick: all singles; all pairs over the in-place alphabet; every copy-like operation paired (both orders) with
+    the small in-place alphabet and with every copy-like operation.  thorough: all pairs over everything, all triples
+    over the small alphabet (incl. round(), H * 1, update(model))."""
     cases = []
     i = 0
     for kind in KINDS:
-        al = alphabet(kind)
-        hs = [[a] for a in al] + [[a, b] for a in al for b in al]
+        full = alphabet(kind)
         if ctx.tier == "thorough":
+            hs = [[a] for a in full] + [[a, b] for a in full for b in full]
             sm = alphabet(kind, small=True)
             hs += [[a, b, c] for a in sm for b in sm for c in sm]
+        else:
+            old, cl, part = alphabet(kind, new=False), copylike(kind), alphabet(kind, small=True, new=False)
+            hs = [[a] for a in full] + [[a, b] for a in old for b in old]
+            part = part[::2] + (CONS[:3] if kind in PC else [])
+            key = [cl[i] for i in (0, 1, 3, 7, 12, 15, 18)] + cl[len(COPYLIKE):]
+            hs += [[a, b] for a in cl for b in part] + [[a, b] for a in part for b in cl] + [[a, b] for a in key for b in key]
         for h in hs:
             cases.append(dict(kind=kind, hist=h, style=STYLES[(i + ctx.seed) % 4]))
             i += 1
@@ -671,10 +868,14 @@ def targeted_cases(ctx):
             if kind in ("QUBO", "QUSO"):
                 break
     mids = [{"t": "refresh"}, {"t": "copy"}, {"t": "imulD", "q": [[[0], "1"], [[], "1"]]}, {"t": "ipow", "e": 2},
-            {"t": "clear"}, {"t": "imulC", "c": "0"}]
+            {"t": "clear"}, {"t": "imulC", "c": "0"},
+            {"t": "round", "nd": None}, {"t": "round", "nd": 0}, {"t": "subs"}, B({"t": "addC", "c": "0"}, refl=True),
+            B({"t": "mulC", "c": "1"}), B({"t": "pow", "e": 1}), B({"t": "pow", "e": 2}), {"t": "neg"}, {"t": "pos"},
+            {"t": "rsubC", "c": "0"}, B({"t": "divC", "c": "1"}), {"t": "remap"},
+            B({"t": "mulD", "q": [[[0], "1"], [[], "1"]]})]
     for kind in ("PCBO", "PCSO"):
         for c1 in CONS[:5]:
-            for mid in mids:
+            for mid in mids + [{"t": "cast", "kind": kind}, UM(kind, [CONS[0]]), UM(kind, [CONS[2], S([5], "1")])]:
                 for c2 in (CONS[0], CONS[2]):
                     out.append(dict(kind=kind, hist=[c1, mid, c2], style=STYLES[(i + ctx.seed) % 4]))
                     out.append(dict(kind=kind, hist=[c1, A([7], "add", "3"), A([7], "sub", "3"), mid, c2],
